@@ -621,10 +621,20 @@ func makeClassesReady(p *slip.Package) {
 // superclass that has not been re-merged yet. The direct superclass names are
 // used instead of the inherit list since that list is what is out of date.
 func classChanged(cc slip.Class, p *slip.Package) {
+	classChangedPath(cc, p, map[slip.Class]bool{cc: true})
+}
+
+// classChangedPath does not visit a class that is on the path from the class
+// that changed to cc so that superclass names that form a cycle do not
+// recurse for ever. A class reached by more than one path is still re-merged
+// on each of them.
+func classChangedPath(cc slip.Class, p *slip.Package, path map[slip.Class]bool) {
 	for _, c := range p.AllClasses() {
-		if sc, ok := c.(isStandardClass); ok && sc.namesSuper(cc.Name()) {
+		if sc, ok := c.(isStandardClass); ok && !path[c] && sc.namesSuper(cc.Name()) {
+			path[c] = true
 			sc.mergeSupers()
-			classChanged(c, p)
+			classChangedPath(c, p, path)
+			delete(path, c)
 		}
 	}
 }
